@@ -53,6 +53,8 @@ hmod!(pub(crate) c09o, "c09o.rs");
 #[cfg(all(not(feature = "shuttle"), feature = "descriptive-gate"))]
 hmod!(pub(crate) c10, "c10.rs");
 #[cfg(all(not(feature = "shuttle"), feature = "descriptive-gate"))]
+hmod!(pub(crate) c12d, "c12d.rs");
+#[cfg(all(not(feature = "shuttle"), feature = "descriptive-gate"))]
 hmod!(pub(crate) c13, "c13.rs");
 #[cfg(all(not(feature = "shuttle"), feature = "descriptive-gate"))]
 hmod!(pub(crate) c15, "c15.rs");
